@@ -35,15 +35,35 @@ class Adapter:
         ctx = materialise.lang_ctx(L, key=lang)
         res = {'steps': 0, 'div': [], 'features': []}
         hist = case['hist']
-        if not hist or any(s['act']['op'] != 'AddAsset' or s['act']['res'] != 'ok' or s['act']['reqName'] == 'NONE'
-                           or s['act']['reqId'] == NOID for s in hist):
-            return res                      # not a file: only accepted adds with stated id and name
-        entries = [(s['act']['reqId'], s['act']['reqName'], s['act']['T']) for s in hist]
-        key = lang + json.dumps(entries)
+        adds = [s for s in hist if s['act']['op'] == 'AddAsset']
+        rest = [s for s in hist if s['act']['op'] != 'AddAsset']
+        if not adds or any(s['act']['res'] != 'ok' for s in hist) \
+                or any(s['act']['reqName'] == 'NONE' or s['act']['reqId'] == NOID for s in adds) \
+                or any(s['act']['op'] not in ('AddAssociation', 'SetDefense') for s in rest) \
+                or hist[:len(adds)] != adds:
+            return res                      # not a file: accepted adds with stated id and name, then defenses / associations
+        entries = [(s['act']['reqId'], s['act']['reqName'], s['act']['T']) for s in adds]
+        hid = {s['act']['h']: s['act']['reqId'] for s in adds}
+        defs = {}
+        assocs = []
+        for s in rest:
+            a = s['act']
+            if a['op'] == 'SetDefense':
+                defs.setdefault(hid[a['h']], {})[a['d']] = a['v'] / 10
+            else:
+                decl = L['assocs'][a['cls'] - 1]
+                assocs.append({materialise.class_name(L, a['cls']): {decl['lf']: [hid[x] for x in a['l']], decl['rf']: [hid[x] for x in a['r']]}})
+        if rest and 'native' not in self.formats:
+            return res                      # the legacy layouts only carry pairwise links: files with links are C07's
+        key = lang + json.dumps([entries, defs, assocs], sort_keys=True)
         if key in self.seen:
             return res
         self.seen.add(key)
         want = {a['id']: {'name': a['name'], 'type': a['type']} for a in case['final']}
+        want_defs = {a['id']: dict(a['def']) if isinstance(a['def'], dict) else {} for a in case['final']}
+        fin_id = {a['h']: a['id'] for a in case['final']}
+        want_assocs = sorted((x['cls'], sorted(fin_id[m] for m in x['l']), sorted(fin_id[m] for m in x['r']))
+                             for x in hist[-1]['obs']['assocs'])
         names = [e[1] for e in entries]
         feats = set()
         if len(set(names)) != len(names):
@@ -63,7 +83,8 @@ class Adapter:
         loads = []
         if 'native' in self.formats:
             doc = {'metadata': {'name': 'handwritten', 'langVersion': L['version'], 'langID': L['id']},
-                   'assets': {str(i): {'name': n, 'type': t} for (i, n, t) in entries}, 'associations': [], 'attackers': {}}
+                   'assets': {str(i): dict({'name': n, 'type': t}, **({'defenses': defs[i]} if i in defs else {})) for (i, n, t) in entries},
+                   'associations': assocs, 'attackers': {}}
             for ext in ('json', 'yml'):
                 p = os.path.join(d, 'file-%d.%s' % (os.getpid(), ext))
                 with open(p, 'w', encoding='utf-8') as f:
@@ -104,7 +125,20 @@ class Adapter:
             got = {int(a.id): {'name': str(a.name), 'type': str(a.type)} for a in m.assets}
             if got != want:
                 div(kind, 'assets', {'want': want, 'got': got})
-        if len(entries) >= 2:
+                continue
+            if rest:
+                gd = {int(a.id): {k: int(round(float(v) * 10)) for k, v in m.get_asset_defenses(a, include_defaults=True).items()} for a in m.assets}
+                if gd != want_defs:
+                    div(kind, 'defenses', {'want': want_defs, 'got': gd})
+                    continue
+                cls_index = {materialise.class_name(L, i + 1): i + 1 for i in range(len(L['assocs']))}
+                ga = []
+                for x in m.associations:
+                    lf, rf = [str(k) for k in m.get_association_field_names(x)]
+                    ga.append((cls_index.get(type(x).__name__, -1), sorted(int(y.id) for y in getattr(x, lf)), sorted(int(y.id) for y in getattr(x, rf))))
+                if sorted(ga) != [tuple(w) for w in want_assocs] and sorted(ga) != want_assocs:
+                    div(kind, 'associations', {'want': want_assocs, 'got': sorted(ga)})
+        if len(entries) >= 2 or rest:
             res['nontrivial'] = key
         res['sample'] = {'lang': lang, 'file_entries': entries}
         return res
